@@ -10,7 +10,7 @@ Open Scope Z_scope.
     list is exactly the deliverable sequence numbers after the resume point, in
     increasing order.  For several goroutines of one name and the start-up /
     shutdown steps see the C32_reg_… theorems below: there the same statement
-    needs the guard. *)
+    needs the guard "no second concurrent first registration". *)
 Theorem C32_acked_contiguous_increasing : forall c st r0 es,
   let s := run_events c st (init_state r0) es in
   exists r, (0 < r0 -> r = r0) /\
@@ -107,62 +107,92 @@ Proof. exact deliverable_posted. Qed.
 Print Assumptions C32_deliverable_block_posted.
 
 (** * Registration and task start-up / shutdown as a transition system over
-    several goroutines of one subscriber name (ModelReg.v), unchanged code. *)
+    several goroutines of one subscriber name (ModelReg.v), the code in /repo
+    (with the repair of the start-up and shutdown windows, [fx = true]). *)
 
-(** "One task per subscriber" is false: a re-registration that finds the status
-    of the pushNotify still "not running" (the goroutine exists but has not yet
-    written it) starts a second goroutine. *)
+(** "One task per subscriber" is still false in one shape: a second first
+    registration of the same name that passed hasSubscriberExist before the
+    first one stored the record replaces the task entry (addTask) and starts a
+    second goroutine. *)
 Theorem C32_single_task_per_subscriber_refuted : ~ C32_single_task_per_subscriber_full.
 Proof. exact single_task_refuted. Qed.
 Print Assumptions C32_single_task_per_subscriber_refuted.
 
-(** Guard (boolean, evaluated along the run): no check2ResumePush while a
-    goroutine of the name is in a start-up window (spawned, status not yet
-    written) or shutdown window (status "not running" written, entry not yet
-    deleted), and no second concurrent first registration.  Then at most one
-    goroutine can post, for every event sequence. *)
+(** Guard (boolean): the event sequence has no step of a second concurrent
+    first registration (VSetLast, VAddTask).  Then at most one goroutine can
+    post, for every interleaving of re-registrations, start-up, rounds,
+    answers, shutdown, close and restart steps. *)
 Theorem C32_single_task_per_subscriber_partial : forall c st r0 es,
-  guard_run false c st (init_sys0 false r0) es = true ->
-  (live_tasks (yrun false c st (init_sys0 false r0) es) <= 1)%nat.
-Proof. exact (reg_single_task false). Qed.
+  forallb fixed_guard es = true ->
+  (live_tasks (yrun true c st (init_sys0 true r0) es) <= 1)%nat.
+Proof.
+  intros c st r0 es G. rewrite <- (guard_fixed_is c st es (init_sys0 true r0)) in G.
+  exact (reg_single_task true c st r0 es G).
+Qed.
 Print Assumptions C32_single_task_per_subscriber_partial.
 
-(** Delivery on the transition system: without the guard the acknowledged list
-    has duplicates and is out of order ... *)
+(** Delivery on the transition system: with a second first registration the
+    acknowledged list has duplicates and is out of order ... *)
 Theorem C32_reg_acked_contiguous_increasing_refuted : ~ C32_reg_acked_contiguous_increasing_full.
 Proof. exact reg_acked_refuted. Qed.
 Print Assumptions C32_reg_acked_contiguous_increasing_refuted.
 
-(** ... under the guard it is gap-free and increasing, over all interleavings of
-    registration, start-up, rounds, answers, shutdown, close and restart steps. *)
+(** ... without one it is gap-free and increasing. *)
 Theorem C32_reg_acked_contiguous_increasing_partial : forall c st r0 es,
-  guard_run false c st (init_sys0 false r0) es = true ->
-  let y := yrun false c st (init_sys0 false r0) es in
+  forallb fixed_guard es = true ->
+  let y := yrun true c st (init_sys0 true r0) es in
   exists r, (0 < r0 -> r = r0) /\
             contiguous_from (c_kind c) st r (y_acked y) /\
             StronglySorted Z.lt (y_acked y).
-Proof. exact (reg_acked_contiguous false). Qed.
+Proof.
+  intros c st r0 es G. rewrite <- (guard_fixed_is c st es (init_sys0 true r0)) in G.
+  exact (reg_acked_contiguous true c st r0 es G).
+Qed.
 Print Assumptions C32_reg_acked_contiguous_increasing_partial.
 
 Theorem C32_reg_recorded_le_acked_partial : forall c st r0 es,
-  guard_run false c st (init_sys0 false r0) es = true ->
-  let y := yrun false c st (init_sys0 false r0) es in
+  forallb fixed_guard es = true ->
+  let y := yrun true c st (init_sys0 true r0) es in
   recorded_justified (c_kind c) st r0 (y_rcd y) (y_acked y).
-Proof. exact (reg_recorded_after_ack false). Qed.
+Proof.
+  intros c st r0 es G. rewrite <- (guard_fixed_is c st es (init_sys0 true r0)) in G.
+  exact (reg_recorded_after_ack true c st r0 es G).
+Qed.
 Print Assumptions C32_reg_recorded_le_acked_partial.
 
-(** The stored last push sequence can move backwards (the slower of two
-    goroutines overwrites it) ... *)
+(** The stored last push sequence can still move backwards with a second first
+    registration (the slower of the two goroutines overwrites it) ... *)
 Theorem C32_reg_recorded_monotone_refuted : ~ C32_reg_recorded_monotone_full.
 Proof. exact reg_rcd_mono_refuted. Qed.
 Print Assumptions C32_reg_recorded_monotone_refuted.
 
-(** ... and never does under the guard. *)
+(** ... and never does without one. *)
 Theorem C32_reg_recorded_monotone_partial : forall c st r0 es1 es2,
-  guard_run false c st (init_sys0 false r0) (es1 ++ es2) = true ->
-  y_rcd (yrun false c st (init_sys0 false r0) es1) <= y_rcd (yrun false c st (init_sys0 false r0) (es1 ++ es2)).
-Proof. exact (reg_rcd_mono false). Qed.
+  forallb fixed_guard (es1 ++ es2) = true ->
+  y_rcd (yrun true c st (init_sys0 true r0) es1) <= y_rcd (yrun true c st (init_sys0 true r0) (es1 ++ es2)).
+Proof.
+  intros c st r0 es1 es2 G. rewrite <- (guard_fixed_is c st (es1 ++ es2) (init_sys0 true r0)) in G.
+  exact (reg_rcd_mono true c st r0 es1 es2 G).
+Qed.
 Print Assumptions C32_reg_recorded_monotone_partial.
+
+(** The code before the repair (chain33 up to the commit named in
+    known_findings/C32.json, [fx = false]) needed the larger guard [guard_run
+    false]: also no check2ResumePush while a goroutine of the name was in a
+    start-up window (spawned, status not yet written) or shutdown window (status
+    "not running" written, entry not yet deleted).  Kept because it says what a
+    revert of the repair would bring back; ProofsRegExamples.v has the
+    interleavings that then delivered twice. *)
+Theorem C32_before_repair_guard_needed : forall c st r0 es,
+  guard_run false c st (init_sys0 false r0) es = true ->
+  let y := yrun false c st (init_sys0 false r0) es in
+  (live_tasks y <= 1)%nat /\
+  exists r, (0 < r0 -> r = r0) /\ contiguous_from (c_kind c) st r (y_acked y) /\
+            StronglySorted Z.lt (y_acked y).
+Proof.
+  intros c st r0 es G y. split; [exact (reg_single_task false c st r0 es G)|exact (reg_acked_contiguous false c st r0 es G)].
+Qed.
+Print Assumptions C32_before_repair_guard_needed.
 
 (** The second sentence of the property — a sequence is recorded as delivered
     only after the subscriber acknowledged it — holds WITHOUT the guard, for
@@ -194,29 +224,12 @@ Theorem C32_second_task_replays : forall fx c st y i j ti tj latest seqs upd,
 Proof. exact second_task_replays. Qed.
 Print Assumptions C32_second_task_replays.
 
-(** The candidate repair (work/C32/fix2.diff; [fx = true]: the pushNotify is
-    marked running before the goroutine is spawned, and "not running" + delete
-    are one critical section): the guard shrinks to "no second concurrent first
-    registration", and one goroutine, gap-free delivery and a monotone record
-    hold for every other interleaving. *)
+(** What the guard of the larger transition relation is for the repaired code:
+    exactly "no step of a second first registration". *)
 Theorem C32_fix2_guard : forall c st es y,
   guard_run true c st y es = forallb fixed_guard es.
 Proof. exact guard_fixed_is. Qed.
 Print Assumptions C32_fix2_guard.
-
-Theorem C32_fix2_single_task_and_order : forall c st r0 es,
-  forallb fixed_guard es = true ->
-  let y := yrun true c st (init_sys0 true r0) es in
-  (live_tasks y <= 1)%nat /\
-  (exists r, (0 < r0 -> r = r0) /\ contiguous_from (c_kind c) st r (y_acked y) /\
-             StronglySorted Z.lt (y_acked y)) /\
-  recorded_justified (c_kind c) st r0 (y_rcd y) (y_acked y).
-Proof.
-  intros c st r0 es G y. rewrite <- (guard_fixed_is c st es (init_sys0 true r0)) in G.
-  split; [exact (reg_single_task true c st r0 es G)|].
-  split; [exact (reg_acked_contiguous true c st r0 es G)|exact (reg_recorded_after_ack true c st r0 es G)].
-Qed.
-Print Assumptions C32_fix2_single_task_and_order.
 
 (** Remarks on Close (not part of the property): a goroutine that returns
     through the LoadBlockLastSequence error path never calls Done, so Close can
